@@ -387,6 +387,24 @@ func runC16(c *Ctx) {
 					case "Dec":
 						decs++
 						decFn = f.Name()
+						// a small method introduced around the decrement (connClosed) stands for its only caller
+						if c.isNewHelper(f) {
+							callers := map[string]bool{}
+							for _, g := range c.funcsOf(rel) {
+								for _, gb := range g.Blocks {
+									for _, gi := range gb.Instrs {
+										if gc, isCall := gi.(ssa.CallInstruction); isCall && gc.Common().StaticCallee() == f {
+											callers[g.Name()] = true
+										}
+									}
+								}
+							}
+							if len(callers) == 1 {
+								for k := range callers {
+									decFn = k
+								}
+							}
+						}
 					default:
 						others++
 					}
